@@ -36,7 +36,7 @@ CLAIMED = {
         "note": "Partial: clauses S1, S3, S5-S9 (type level, statics, who-calls), S10/S11 (single snapshot).",
     },
     "C06": {
-        "technique": "interprocedural byte/char unit taint on MIR with parameter summaries; constant-offset inventory against a reviewed table; call-graph reachability of todo!()/unimplemented!() from the compile entry points; HIR arm checks (occurs check before binding, type-argument traversal, character_range at every ariadne call); same-span agreement of file name, converted span and text for every report label; explicit-panic inventory against a reviewed table; progress measure of the import fixpoint (count compared with the count at the start of the same round); sibling agreement of type checker and MIR lowering on desugared operators, both evaluated per operator; per-path visit count of each operand in the evaluated operator checker (no exponential re-checking); directory discovery descends only on DirEntry::file_type (no link-following test); interprocedural typestate of the LIR builder's block under construction (nothing emitted behind a terminator before the next block is opened; per-method summaries to a fixpoint)",
+        "technique": "interprocedural byte/char unit taint on MIR with parameter summaries; constant-offset inventory against a reviewed table; call-graph reachability of todo!()/unimplemented!() from the compile entry points; HIR arm checks (occurs check before binding, type-argument traversal, character_range at every ariadne call); same-span agreement of file name, converted span and text for every report label; explicit-panic inventory against a reviewed table; progress measure of the import fixpoint (count compared with the count at the start of the same round); sibling agreement of type checker and MIR lowering on desugared operators, both evaluated per operator; per-path visit count of each operand in the evaluated operator checker (no exponential re-checking); directory discovery descends only on DirEntry::file_type (no link-following test); interprocedural typestate of the LIR builder's block under construction (nothing emitted behind a terminator before the next block is opened; per-method summaries to a fixpoint); bound on the number of enum variants (shared C02.L11)",
         "level": "Decides five necessary conditions (U1-U5), each of which located a real crash on this tree; panic-freedom and termination of the whole front end on arbitrary text is NOT decided (hundreds of invariant-dependent unwrap/ice! sites).",
         "note": "Partial: clauses U1-U5.",
     },
@@ -91,7 +91,7 @@ CLAIMED = {
         "note": "Partial (thin): clauses R1-R6.",
     },
     "C02": {
-        "technique": "sibling agreement of all LayoutBuilder walks (context classified from resolved HIR patterns, seeding and traversal order read from MIR), direction checks of the clone plumbing by argument-origin tracing, ADT shape / derive table for the shared and immutable types; partial evaluation of the LIR lowering of constant / context reads (clone from the value's own address on the reading path, no aliasing, no remembered loads); default-branch decision of the match lowering on distinct variants (shared C05.A12)",
+        "technique": "sibling agreement of all LayoutBuilder walks (context classified from resolved HIR patterns, seeding and traversal order read from MIR), direction checks of the clone plumbing by argument-origin tracing, ADT shape / derive table for the shared and immutable types; partial evaluation of the LIR lowering of constant / context reads (clone from the value's own address on the reading path, no aliasing, no remembered loads); default-branch decision of the match lowering on distinct variants (shared C05.A12); tag-width bound: the definition of a declared enum refuses more variants than the one-byte tag distinguishes (constant and edge of the guarding comparison evaluated)",
         "level": "Decides offset-table agreement between the independent layout walks and the aliasing structure of lists vs values; value semantics and exact addressing of generated code for all programs are not decided.",
         "note": "Partial: clauses L1-L3.",
     },
